@@ -303,6 +303,15 @@ class Sim:
         # cli_threshold: threshold given "on the command line" (options.threshold); when it differs from
         # t the program assigns mpc.threshold = t before start, as e.g. demos/parallelsort.py does
         self.cli_threshold = cli_threshold
+        # livelock rule (off unless livelock_steps is set by a check): a run in which, for that many consecutive
+        # scheduler steps, no party wrote a byte, no byte moved, no connection closed and no party program finished
+        # consists of busy-waiting callbacks only (barrier()/shutdown() polling with sleep(0)); the state can no
+        # longer change, so the run is a hang (deterministic, counted in steps, not wall-clock time)
+        self.livelock_steps = None
+        self.livelock = False
+        self._progress_at = 0
+        self._progress_sig = None
+        self.tasks = []
         # no_log: per-party list of booleans (option --no-log given or not); parties are separate processes in a
         # deployment, each with its own logging configuration: the process-wide logging state is switched to the
         # running party's configuration around every callback (records go to a NullHandler)
@@ -587,6 +596,14 @@ class Sim:
 
     def _do(self, e):
         self.steps += 1
+        if self.livelock_steps is not None:
+            sig = (self.write_events, len(self.close_events), sum(1 for tk in self.tasks if tk.done()),
+                   e[0] == 'C' and self.steps)
+            if sig != self._progress_sig:
+                self._progress_sig = sig
+                self._progress_at = self.steps
+            elif self.steps - self._progress_at > self.livelock_steps:
+                self.livelock = True
         if e[0] == 'C':
             _, i, j = e
             w = self.wire[i, j]
@@ -666,6 +683,8 @@ class Sim:
                 break
             if self.steps - start > self.MAX_STEPS:
                 self.inconclusive = True
+                break
+            if self.livelock:
                 break
             en = [k for k in range(ne) if self._enabled(ents[k])]
             if not en:
